@@ -33,6 +33,7 @@ SCHEMA = {
     "aten.sub": ["ts", "ts"], "aten.abs": ["t"], "aten.gt": ["t", "ts"], "aten.le": ["t", "ts"], "aten.ge": ["t", "ts"],
     "aten.eq": ["t", "ts"], "aten.ne": ["t", "ts"], "aten.sum": ["t"], "aten.mean": ["t"], "aten.squeeze_": ["t"],
     "aten.index_select": ["t", "a", "t"], "aten.gelu": ["t"], "aten.sigmoid": ["t"], "aten.tanh": ["t"], "aten.silu": ["t"],
+    "aten.diagonal": ["t"], "aten.unfold": ["t"], "aten.as_strided": ["t"],
     "aten.unbind": ["t"], "aten.chunk": ["t"], "aten.alias": ["t"], "aten.movedim": ["t"], "aten.matmul": ["t", "t"],
     "aten.addmm": ["t", "t", "t"], "aten.linear": ["t", "t", "t"], "aten.dot": ["t", "t"], "aten.masked_fill": ["t", "t", "ts"],
     "aten.constant_pad_nd": ["t", "a", "a"], "aten.fill": ["t", "ts"], "aten.fill_": ["t", "ts"], "aten.index_fill": ["t", "a", "t", "ts"],
